@@ -204,6 +204,12 @@ class SqliteStateStore(Generic[MODEL_T]):
 
     async def set_state(self, state: MODEL_T) -> None:
         """Replace or merge into the current state model."""
+        # Same lock as edit_state: otherwise an edit_state block that loaded
+        # the state before this write saves its stale copy over it afterwards.
+        async with self._lock:
+            self._set_state_locked(state)
+
+    def _set_state_locked(self, state: MODEL_T) -> None:
         conn = self._connect()
         try:
             cursor = conn.cursor()
